@@ -166,3 +166,121 @@ def uci_session(ctx, exe, lines, wait=3.0, env=None):
     except subprocess.TimeoutExpired:
         p.kill(); out = p.communicate()[0].decode('utf-8', 'replace') + '\n[killed]'
     return out
+
+
+# ------------------------------------------------------------------------------------------------ Level B (one node)
+QSEARCH = '_ZN6engine6Search17quiescence_searchERNS_8PositionEillPNS_4InfoE'
+B_STUBS = ['_ZN6engine14generate_movesERKNS_8PositionENS_5ColorEPj', '_ZN6engine8Position7do_moveEj', '_ZN6engine8Position9undo_moveEjj', '_ZN6engine8Position12do_null_moveEv',
+           '_ZN6engine8Position14undo_null_moveEj', '_ZNK6engine8Position11is_in_checkENS_5ColorE', '_ZNK6engine8Position11is_repeatedEv', '_ZNK6engine8Position7is_drawEv',
+           '_ZNK6engine8Position11no_nonpawnsENS_5ColorE', '_ZNK6engine8Position13move_is_quietEj', '_ZNK6engine8Position16move_gives_checkEj', '_ZN6engine19late_move_reductionEii']
+B_GLUE = {'probe': '_ZN6engine7HashMapImNS_2tt7TTEntryELm4194304EE5probeERKmRb', 'insert': '_ZN6engine7HashMapImNS_2tt7TTEntryELm4194304EE6insertERKmRKS2_',
+          'epoch': '_ZNK6engine7HashMapImNS_2tt7TTEntryELm4194304EE14isCurrentEpochEj', 'score': '_ZN6engine14PositionScorer5scoreERKNS_8PositionE',
+          'order': '_ZN6engine11MoveOrderer11order_movesERKNS_8PositionEPjS4_PNS_4InfoE', 'ums': '_ZN6engine18update_move_scoresERKNS_8PositionEjPNS_4InfoERSt5arrayIS5_IS5_IiLm64EELm64EELm2EEi'}
+
+
+def shrink_tables_b(ctx, m, fm):
+    """the one-node harness never indexes inside a PieceHistory or the history-score rows (update_move_scores and order_moves are
+    stubbed), but search() computes &_counter_move_table[piece][to]: the outer [13][64] shape is kept, the inner tables are cut"""
+    st = m.types['%"class.engine::Search"']
+    def arr_of(t):
+        t2 = m.types.get(t.name) if isinstance(t, ll2c.TNamed) else t
+        if isinstance(t2, ll2c.TStruct) and len(t2.els) == 1 and isinstance(t2.els[0], ll2c.TArr): return t2.els[0]
+        return t2 if isinstance(t2, ll2c.TArr) else None
+    cm = arr_of(st.els[fm[('SRCH', '_counter_move_table')]]); lvl2 = arr_of(cm.el); ph = arr_of(lvl2.el); row = arr_of(ph.el)
+    ph.n = 1; row.n = 1
+    mo = m.types.get(st.els[fm[('SRCH', '_move_orderer')]].name)
+    if mo is not None and isinstance(mo.els[0], ll2c.TArr): mo.els[0].n = 1
+    # further cuts of arrays the node code indexes only with small values or not at all: PV arrays (child PV <= 8 moves), Limits::searchmoves, Position::_history
+    stk = arr_of(st.els[fm[('SRCH', '_stack_info')]])
+    if stk is not None:
+        ctx.stack_slots = stk.n
+        stk.n = 3      # the node only touches info-1, info, info+1: modelled as slots 0,1,2; the true stack index IDX is kept as data (ply) and for the bound arithmetic
+    info_t = m.types['%"struct.engine::Info"']; pv = arr_of(info_t.els[0])
+    if pv is not None: pv.n = 16
+    lim = m.types['%"struct.engine::Limits"']
+    if isinstance(lim.els[0], ll2c.TArr): lim.els[0].n = 8
+    pos = m.types['%"class.engine::Position"']
+    if isinstance(pos.els[-1], ll2c.TArr) and pos.els[-1].n == 800: pos.els[-1].n = 8
+    ml = [g for g in m.globals if 'MOVE_LISTE' in g]
+    for g in ml:
+        t = m.globals[g][0]
+        if isinstance(t, ll2c.TArr) and isinstance(t.el, ll2c.TArr): t.el.n = 8        # rows of MOVE_LIST: the node's list has at most NM <= 6 moves
+    ctx.notes.append('PieceHistory tables, history scores and MoveOrderer::_scores are shrunk in the model (only update_move_scores / order_moves, both stubbed, look inside them); '
+                     'the search stack is modelled by the three slots the node touches (info-1, info, info+1), rows of the global MOVE_LIST are cut to 8 entries, PV arrays to 16, Limits::searchmoves and Position::_history to 8 in the model (the node has at most NM moves, child PVs at most 8; the history is only read by stubbed predicates)')
+
+
+def build_b(ctx, idx, qnode, defines=(), nm=3, tag=''):
+    m = ctx.module(TUS + ['types', 'zobrist_hash'], tag='B')
+    if not hasattr(ctx, '_b_fm'):
+        ctx._b_fm = layout.field_header(ctx, m, [SEARCH_F, INFO_F, LIM_F], ['search.h'])
+        shrink_tables_b(ctx, m, ctx._b_fm)
+    fm = ctx._b_fm
+    c, h, info = ctx.translate(m, [SEARCH, QSEARCH, '_ZN6engine6Search12check_limitsEv'], stubs=B_STUBS + list(B_GLUE.values()), out='engb',
+                               def_rename={SEARCH: 'search_node', QSEARCH: 'qsearch_node'})
+    header = open(h).read()
+    open(ctx.path('eng.h'), 'w').write(header)
+    st = m.types['%"class.engine::Search"']
+    rv = st.els[fm[('SRCH', '_root_moves')]]
+    ft = st.els[fm[('SRCH', 'stop_search')]]; leaf = ''
+    for _ in range(4):
+        if isinstance(ft, ll2c.TNamed): ft = m.types.get(ft.name); continue
+        if isinstance(ft, ll2c.TStruct) and len(ft.els) == 1: leaf += '.f0'; ft = ft.els[0]; continue
+        break
+    open(ctx.path('search_paths.h'), 'w').write('#define VECPATH %s\n#define STOPFLAG SE.SRCH_stop_search%s\n' % (vec_path(m, rv.name), leaf))
+    mm = re.search(r'^(.*?)\b%s\(' % re.escape(B_GLUE['probe']), header, re.M)
+    ent_t = mm.group(1).strip().rstrip('*').strip()
+    glue = ['static %s TT_ENTRY;' % ent_t,
+            proto_stub(header, B_GLUE['probe'], '*v_2 = (uint8_t)tt_found; return &TT_ENTRY;'),
+            proto_stub(header, B_GLUE['insert'], 'n_inserts++; inserted_move = (*v_2).f3;'),
+            proto_stub(header, B_GLUE['epoch'], 'return nondet_bool();'),
+            proto_stub(header, B_GLUE['score'], 'int64_t v = nondet_i64(); __CPROVER_assume(v > -MATE_BOUND && v < MATE_BOUND); return (uint64_t)v;'),
+            proto_stub(header, B_GLUE['order'], 'int64_t n = v_3 - v_2; for (int k = 0; k < 3; k++) { uint32_t i = nondet_u32(), j = nondet_u32(); if ((int64_t)i < n && (int64_t)j < n && i < NM && j < NM) { uint32_t t = v_2[i]; v_2[i] = v_2[j]; v_2[j] = t; } }'),
+            proto_stub(header, B_GLUE['ums'], '')]
+    open(ctx.path('searchb_glue.h'), 'w').write('\n'.join(glue) + '\n')
+    hp = os.path.join(VERIF, 'harness', 'search_b.c')
+    D = ['IDX=%d' % idx, 'NM=%d' % nm, 'STACK_LAST=%d' % (getattr(ctx, 'stack_slots', 80) - 1), 'LL2C_SKIP_BIG_ZEROING'] + (['QNODE'] if qnode else []) + list(defines)
+    name = 'sb_%s%d%s' % ('q' if qnode else 's', idx, tag)
+    gb = ctx.gotocc(name, [c, hp], D); gbw = ctx.gotocc(name + 'w', [c, hp], D + ['WITNESS'])
+    return gb, gbw
+
+
+def unwindset_b(nm):
+    n1 = nm + 2
+    return {'in_list.0': n1, 'setup_list.0': n1, 'setup_list.1': n1, 'setup_list.2': n1, 'child.0': 9, '_ZN6engine14generate_movesERKNS_8PositionENS_5ColorEPj.0': n1,
+            'search_node.0': n1, 'search_node.1': n1, 'search_node.2': n1, 'qsearch_node.0': n1, 'qsearch_node.1': n1, '_ZN6engine23add_new_move_to_pv_listEPNS_4InfoEjS1_.0': 12,
+            B_GLUE['order'] + '.0': 4}
+
+
+ASSUME_B = ['one node of Search::search / Search::quiescence_search is executed as compiled; recursive calls go to contract stubs (children poll the stop flag at entry, may be interrupted, otherwise return a value in '
+            '[-VALUE_MATE, VALUE_MATE] and leave an arbitrary PV of at most 8 moves); by induction over plies the node properties extend to whole searches',
+            'generate_moves -> 0..NM arbitrary distinct canonically encoded moves (C01, C16); order_moves -> arbitrary permutation (the real MoveOrderer is not encoded); do/undo (null) move -> counted stubs (C02/C03); '
+            'is_in_check, is_repeated, is_draw, move_is_quiet, move_gives_check, no_nonpawns -> arbitrary answers (C07, C15); PositionScorer::score -> arbitrary value strictly inside the non-mate range (C14); '
+            'late_move_reduction -> arbitrary 0..6 (libm log); update_move_scores -> empty',
+            'transposition table: probe returns found or not and ONE entry with arbitrary depth, flag, move and epoch and any score in [-VALUE_INFINITE, VALUE_INFINITE] (poisoned/colliding entries included); insert is recorded',
+            'model cuts: the search stack is the three slots the node touches (true index kept as data), MOVE_LIST rows 8, PV arrays 16, history/counter-move tables shrunk (see notes)']
+
+
+def run_b(ctx, pid, specs, want, nm=None):
+    """specs: list of (idx, qnode, defines, tag).  Returns (results, witnesses)"""
+    quick = ctx.tier == 'quick'
+    nm = nm or (2 if quick else 3)
+    qs, ws = [], []
+    for idx, qnode, defs, tag in specs:
+        fn = 'h_qsearch' if qnode else 'h_search'
+        name = '%s_idx%d%s' % (fn, idx, tag)
+        if ctx.only and not re.search(ctx.only, name): continue
+        gb, gbw = build_b(ctx, idx, qnode, defines=defs, nm=nm, tag=tag)
+        smp = {'harness': name, 'node': 'quiescence_search' if qnode else 'search', 'stack index': idx, 'moves at the node': '0..%d' % nm, 'depth/alpha/beta/table entry/stop flag': 'symbolic', 'variant': tag or 'general'}
+        to = 900 if quick else 2700
+        qs.append(Query(name, gb, fn, unwindset_b(nm), timeout=to, sample=smp, extra=EXTRA, max_unwind={'*': 20}))
+        ws.append(Query('w_' + name, gbw, fn, unwindset_b(nm), timeout=to, meta={'of': name}, expect='witness', extra=EXTRA, max_unwind={'*': 20}))
+    res = ctx.run_queries(qs + ws, par=8, label=pid.lower() + 'b')
+    wit = [r for r in res if r.q.expect == 'witness']; res = [r for r in res if r.q.expect != 'witness']
+    for r in res:
+        if r.status == 'fail':
+            mine = [f for f in r.failed if any(f[1].startswith(w) or ('/' + w) in f[1][:8] for w in want) or not re.match(r'C\d\d', f[1])]
+            other = [f for f in r.failed if f not in mine]
+            if other: ctx.notes.append('assertions of other properties failed in the same query (reported by their own checks): ' + '; '.join(sorted({d for _, d in other})))
+            r.failed = mine
+            if not mine: r.status = 'pass'
+    return res, wit
